@@ -45,6 +45,15 @@ func c05Profile(variant string) func(c *sim.RunCtx) {
 				cfg.BlockSectors = 16
 			}
 		}
+		if variant != "mutable" && wconfigPossible(cfg) && cfg.Disk && t.Chance(1, 3) {
+			// assembled by NewBlobAccessFromConfiguration (allocation counts from
+			// the allocator's own collector)
+			cfg.WConfig = true
+			if !cfg.Hier {
+				cfg.KeyFormat = digest.KeyWithoutInstance
+			}
+			c.Count("probe_wconfig_run", 1)
+		}
 		single := t.Chance(1, 3)
 		wo := &workloadOpts{
 			Objects:      4 + t.Choose(10),
@@ -59,10 +68,10 @@ func c05Profile(variant string) func(c *sim.RunCtx) {
 		if single {
 			wo.Clients = 1
 		}
-		before := gatherMetrics().indexDiscards("sim")
+		before := indexDiscardCount()
 		var touches []touchRec
 		O := cfg.Old
-		discarded := func() bool { return gatherMetrics().indexDiscards("sim") != before }
+		discarded := func() bool { return indexDiscardCount() != before }
 		inRepeat := false
 		opts := &storeRunOpts{cfg: cfg, wo: wo}
 		opts.setup = func(w *storeWorld) {
@@ -149,7 +158,7 @@ func c05Profile(variant string) func(c *sim.RunCtx) {
 			}
 		}
 		w := runStoreForward(c, opts)
-		if w != nil && len(touches) > 0 && w.e.alloc.Allocs > cfg.New+cfg.Cur {
+		if w != nil && len(touches) > 0 && w.allocs() > cfg.New+cfg.Cur {
 			c.Nontrivial = true
 		}
 	}
